@@ -67,6 +67,14 @@ def build(rng, case):
                 cellm[i, j] = float(rng.choice([-1, 1])) * cellm[i, i] * np.radians(10 ** rng.uniform(-5, -2.3))
     else:
         cellm = atomsgen.random_cell(rng, case["cell"], scale=9.0)
+    if case["cell"] == "ortho" and case["s"] % 5 in (2, 4):
+        # a right-angled box whose vectors point along -x, -y or -z (a left-handed or a turned setting, legal): lengths are lengths
+        sg = np.ones(3)
+        sg[int(rng.integers(3))] = -1.0
+        if rng.integers(2):
+            sg[int(rng.integers(3))] = -1.0
+        cellm = np.array(cellm, float) * sg[:, None]
+        case["_negative_axes"] = True
     if case["cell"] in ("ortho", "tri") and case["s"] % 4 == 1:
         # a cell typed with whole numbers (integer array / nested list of ints)
         cellm = np.array(np.round(cellm), dtype=int)
@@ -308,6 +316,21 @@ def run_case(case, ctx):
         fail("save_p1_cif raised %s: %s" % (type(e).__name__, str(e)[:200]), "save_raises")
         return
     st.count("files_written")
+    # what the file itself states about the cell, read with the harness's own CIF tokenizer: three positive lengths, the norms of
+    # the structure's cell vectors, and the three angles between them (to the printed precision)
+    try:
+        items = {t.lower(): v for t, v in cifcmp.parse(t1)["items"]}
+        stated = [float(str(items[k]).split("(")[0]) for k in ("_cell_length_a", "_cell_length_b", "_cell_length_c", "_cell_angle_alpha", "_cell_angle_beta", "_cell_angle_gamma")]
+        c0 = np.array(a.cell, float)
+        ln = np.linalg.norm(c0, axis=1)
+        an = [float(np.degrees(np.arccos(np.clip(np.dot(c0[i], c0[j]) / ln[i] / ln[j], -1, 1)))) for i, j in ((1, 2), (0, 2), (0, 1))]
+        st.count("cell_tags_of_written_files_checked")
+        if np.abs(np.array(stated[:3]) - ln).max() > 1e-4 * max(1.0, ln.max()):
+            fail("the file states cell lengths %s, the structure's cell vectors have lengths %s" % (stated[:3], np.round(ln, 6).tolist()), "cell_tags")
+        if np.abs(np.array(stated[3:]) - np.array(an)).max() > 1e-3:
+            fail("the file states cell angles %s, the structure's cell vectors enclose %s" % (stated[3:], np.round(an, 5).tolist()), "cell_tags")
+    except (KeyError, ValueError) as e:
+        fail("cell tags of the written file cannot be read: %r" % (e,), "cell_tags")
     try:
         b = load(t1, how=case["s"] % 4)
         st.seen("load_form", case["s"] % 4)
@@ -324,6 +347,8 @@ def run_case(case, ctx):
         fail("%s coordinates were asked for (flag given as %s), the file has %s" % ("fractional" if mode == "fract" else "Cartesian", ["bool", "bool", "numpy.bool_", "int"][len(a) % 4],
                                                                                    "fractional" if wrote_fract else ("Cartesian" if wrote_cart else "neither")), "coordinate_kind")
     st.seen("flag_form", ["bool", "bool", "numpy.bool_", "int"][len(a) % 4])
+    if case.get("_negative_axes"):
+        st.count("right_angled_boxes_with_vectors_along_negative_axes")
     if case.get("_whole_number_cell"):
         st.count("structures_with_a_cell_of_whole_numbers")
     if case.get("_numeric_extras"):
@@ -555,6 +580,10 @@ def requirements(stats, tier):
         need.append("impropers together with extra torsion columns observed fewer than 3 times")
     if stats.get("structures_with_two_atom_types_of_one_element_and_terms") < 10:
         need.append("structures in which two atom types share an element (and terms exist): %d" % stats.get("structures_with_two_atom_types_of_one_element_and_terms"))
+    if stats.get("cell_tags_of_written_files_checked") < 0.9 * stats.get("files_written"):
+        need.append("cell tags of written files checked: %d of %d" % (stats.get("cell_tags_of_written_files_checked"), stats.get("files_written")))
+    if stats.get("right_angled_boxes_with_vectors_along_negative_axes") < (8 if tier == "quick" else 2000):
+        need.append("right-angled boxes with vectors along negative axes: %d" % stats.get("right_angled_boxes_with_vectors_along_negative_axes"))
     if stats.get("non_p1_symbols_that_begin_with_P1") < 40:
         need.append("non-P1 symbols that begin with 'P 1': %d" % stats.get("non_p1_symbols_that_begin_with_P1"))
     if stats.get("non_p1_rejected") < 50 or stats.get("su_variants") < 50 or stats.get("exponent_variants") < 50:
